@@ -9,6 +9,9 @@ func registerOps(r *ledger.Runner) {
 	r.Ops["gov.set"] = opSet
 	r.Ops["gov.commit"] = opCommit
 	r.Ops["gov.fork"] = opFork
+	r.Ops["vc.round"] = opRound
+	r.Ops["vc.register"] = opRegister
+	r.Ops["vc.stake"] = opStake
 }
 
 var baseLight = map[string]int{"send": 2, "call": 6, "pour": 1, "data": 0, "replay": 1, "block": 4, "clock": 1}
@@ -53,6 +56,37 @@ func init() {
 		LevelNote: "a fork recorded with a round not above the current one switches the rest of the current block (blocks are judged at their end); one chain instance (replica agreement is C06)",
 		Technique: "deterministic simulation: seeded fork rounds and callers, reference switch model against the real WithActivation on the real trie",
 		DesignRef: "6/C43", Regime: "single-threaded event loop", Components: ledger.W1Components,
+	})
+
+	sc38 := ledger.Scenario{
+		Prop: "C38", Weights: map[string]int{"send": 1, "call": 4, "pour": 0, "data": 0, "replay": 1, "block": 2, "clock": 1}, Lo: 0, Hi: 8,
+		GenExtra: genVC(false), Setup: setupVC("C38"), Finish: finishVC("C38"),
+	}
+	sim.Register(&sim.Check{
+		ID: "C38", Title: "The view-change phase machine follows its schedule", World: "ledger",
+		Gen: sc38.Gen, Exec: sc38.Exec,
+		Quick: sim.Budget{Runs: 480, WallS: 80}, Thorough: sim.Budget{Runs: 30000, WallS: 1200},
+		LevelText: "view change enabled on the real chain; phase lengths shrunk through the contract's configuration (PhaseRounds), membership limits through the real update_settings; miner and sharder agents with the world's real keys register through add_miner / add_sharder, " +
+			"run the real off-chain DKG (chaincore/threshold/bls: MakeDKG, ComputeDKGKeyShare, ValidateShare, signed acknowledgements) and submit contributeMpk / sharder_keep / shareSignsOrShares / wait, the generator closes each round with payFees; " +
+			"faults: silent miners and sharders, duplicates, out-of-phase messages, wrong-size / garbage / foreign-id mpks, too few / null / badly signed / wrong-share entries, non-member senders, missing / foreign / wrong-round / doubled payFees; " +
+			"oracle per transaction and block on the real trie: legal transitions only, never before the configured rounds, always on schedule when payFees runs, DKG messages accepted only in phase, once per participating miner, of the expected size and valid content, magic block overlaps the previous set, bounded liveness when all agents are honest",
+		LevelNote: "add_miner / add_sharder only admit nodes of the current magic block, so the candidate set is the genesis set; the chain's latest finalized magic block is not advanced by the sim finaliser (second cycles run against the genesis set as previous set); a shareSignsOrShares whose payload names an unknown id crashes the contract goroutine on the pinned tree and is only generated with cfg crash_sos=1 (see NOTES.md)",
+		Technique: "deterministic simulation: scripted DKG agents with message faults against a phase-machine reference model on the real trie",
+		DesignRef: "6/C38", Regime: "single-threaded event loop", Components: ledger.W1Components,
+	})
+	sc39 := ledger.Scenario{
+		Prop: "C39", Weights: map[string]int{"send": 1, "call": 1, "pour": 0, "data": 0, "replay": 0, "block": 1, "clock": 1}, Lo: 0, Hi: 4,
+		GenExtra: genVC(true), Setup: setupVC("C39"),
+	}
+	sim.Register(&sim.Check{
+		ID: "C39", Title: "View-change node selection is exact and stake-ordered", World: "ledger",
+		Gen: sc39.Gen, Exec: sc39.Exec,
+		Quick: sim.Budget{Runs: 480, WallS: 80}, Thorough: sim.Budget{Runs: 30000, WallS: 1200},
+		LevelText: "every selection (miners: DKG list -> magic block; sharders: keep list -> magic block) of C38-style histories biased to more candidates than slots and tied stakes (stakes through the real addToDelegatePool); candidates read from the trie before the generator's payFees, result from the magic block after; " +
+			"reference of DESIGN A.6 (size, required previous-set members by stake, everyone above the cut-off in, none below); id-independence among ties by a seed sweep on scratch forks of the state at the selection point (the same payFees re-executed through the contract's real Execute with S different round seeds of the latest finalized magic block, S such that (slots/ties)^S < 1e-12), same seed twice for identical results",
+		LevelNote: "reduce is reached only through real transactions (hook H2 not needed); layouts are those reachable with the genesis set as candidates (limits lowered through update_settings)",
+		Technique: "deterministic simulation: selection reference model + seed sweep on state forks",
+		DesignRef: "6/C39, A.6", Regime: "single-threaded event loop", Components: ledger.W1Components,
 	})
 
 	ledger.RegisterWorkload(&ledger.Workload{
